@@ -223,6 +223,13 @@ class Mutants(Suite):
                 for v in (0, 1, 0xFFFFFFFF, (w + 1) & 0xFFFFFFFF, (w - 1) & 0xFFFFFFFF, 0x80000000):
                     if v != w:
                         muts.append(["word", off, v])
+            # two fields at once (lengths and offsets that only misbehave together)
+            ext = (0, 1, 8, 0xFFFFFFFF, 0x80000000, 0xF8FFFFFF, 0xFFFFFFF8, 0x01000000)
+            top = cand[:max(8, per_base // 6)]
+            for _ in range(per_base // 5):
+                (o1, _), (o2, _) = rng.pick(top), rng.pick(top)
+                if o1 != o2:
+                    muts.append(["words", [[o1, rng.pick(ext)], [o2, rng.pick(ext)]]])
             # truncations
             grid = {0, 1, 511, 512, 513, fsize - 1, fsize - 512, fsize // 2}
             for o, b in chunks.items():
@@ -237,6 +244,17 @@ class Mutants(Suite):
                     if len(b) > 600:
                         must += [["trunc", t] for t in (o + 513, o + len(b) // 2, o + len(b) - 2) if 0 < t < fsize]
                 must = must[:40]
+            if name.startswith("qcow2"):
+                # the header extension walk: an extension length near 2^32 together with an extension area that ends
+                # beyond 4 GiB (backing file name offset), or at the end of the first cluster
+                h0 = chunks.get(0, b"")
+                hl = struct.unpack(">I", h0[100:104])[0] if len(h0) >= 104 and h0[4:8] == b"\0\0\0\x03" else 72
+                for ln in (0xFFFFFFF8, 0xFFFFFFF0, 0xFFFFFFFF, 0xFFFFFFF9, 0x7FFFFFF8, 0xFFFFFFF7, 0x100, 0):
+                    for bfo in (None, 1 << 32, (1 << 32) + 8, 1 << 40, (1 << 63) + 16):
+                        mm = [[hl, struct.pack(">II", 0x6803F857, ln).hex()]]
+                        if bfo is not None:
+                            mm.append([8, struct.pack(">QI", bfo, 5).hex()])
+                        must.append(["bytes", mm])
             # random corruption
             offs = [o + i for o, b in chunks.items() for i in range(0, min(len(b), 4096))]
             for _ in range(per_base // 5):
@@ -261,6 +279,10 @@ class Mutants(Suite):
         extra = []
         if m[0] == "word":
             extra.append((m[1], struct.pack("<I", m[2])))
+        elif m[0] == "words":
+            extra += [(o, struct.pack("<I", v)) for o, v in m[1]]
+        elif m[0] == "bytes":
+            extra += [(o, bytes.fromhex(h)) for o, h in m[1]]
         elif m[0] == "corrupt":
             extra += [(o, bytes([v])) for o, v in m[1]]
         elif m[0] == "trunc":
@@ -452,6 +474,11 @@ class Bombs(Suite):
             for inflated in (32 << 20, 64 << 20):
                 out.append({"fmt": "vmdk", "grain_size": gs, "inflated": inflated, "req": [0, 1], "salt": 0})
                 out.append({"fmt": "vmdk", "grain_size": gs, "inflated": inflated, "req": [0, gs], "salt": 0})
+        # a kilobyte of image that claims huge allocation units (nothing allocated): a small request stays small
+        for comp in (True, False):
+            for gbits in (15, 17, 19):
+                for off, n in ((0, 1), (4096, 1), (0, 4096), ((1 << gbits) * 512 - 1, 2)):
+                    out.append({"fmt": "vmdk_claim", "compressed": comp, "grain_size": 1 << gbits, "req": [off, n]})
         return out
 
     def impl(self, case):
@@ -472,6 +499,22 @@ class Bombs(Suite):
             tracemalloc.stop()
             return {"outcome": "ok", "n": len(r), "peak": peak, "unit": 1 << case["cluster_bits"]}
         from dissect.hypervisor.disk.vmdk import VMDK
+        if case["fmt"] == "vmdk_claim":
+            gs = case["grain_size"]
+            flags = 1 | ((c02.F_COMPRESSED | c02.F_LBA) if case["compressed"] else 0)
+            img = c02.kdmv_header(flags, 2 * gs, gs, 0, 0, 512, 1, overhead=2, compress=1 if case["compressed"] else 0) + b"\0" * 512
+            v = VMDK(io.BytesIO(img))
+            tracemalloc.start()
+            try:
+                v.seek(case["req"][0])
+                r = v.read(case["req"][1])
+                out = {"outcome": "ok", "n": len(r), "zero": not any(r)}
+            except Exception as e:  # noqa: BLE001
+                out = {"outcome": "exc", "exc": type(e).__name__}
+            out["peak"] = tracemalloc.get_traced_memory()[1]
+            tracemalloc.stop()
+            out["unit"] = len(img) + case["req"][1]
+            return out
         fh = c02.build_bomb(case)
         v = VMDK(fh)
         tracemalloc.start()
@@ -490,6 +533,12 @@ class Bombs(Suite):
         if o not in ("ok", "exc"):
             return [Finding("impl_fault", f"{case['fmt']} bomb {case}: implementation {o}", f"{case['fmt']}:bomb:{o}")]
         bound = 16 * impl_res["unit"] + (8 << 20)
+        if case["fmt"] == "vmdk_claim":
+            if impl_res["peak"] > bound:
+                return [Finding("impl_vs_spec", f"a {impl_res['unit'] - case['req'][1]} byte extent claiming grains of "
+                                f"{case['grain_size'] * 512} bytes: request {case['req']} allocated {impl_res['peak']} bytes "
+                                f"(bound {bound})", "vmdk:claim:memory")]
+            return []
         if impl_res["peak"] > bound:
             return [Finding("impl_vs_spec", f"{case['fmt']} unit of {impl_res['unit']} bytes inflating to {case['inflated']}: "
                             f"request {case['req']} allocated {impl_res['peak']} bytes (bound {bound})",
